@@ -733,6 +733,43 @@ def gen_case(rng):
             'alts': alts, 'times': times, 'states': states, 'ints': ints, 'kinds': sorted(set(kinds))}
 
 
+def gen_top_row_case(rng):
+    """Grid lines as LOWER cell edges (np.arange(-90, 90, res) / np.arange(-180, 180, res), the library's own
+    n_cells = n_lat * n_lon convention): the northernmost cell row lies above the last latitude line and the easternmost
+    column east of the last longitude line.  A route inside, into and out of that row / column (seeded/C04-11)."""
+    import numpy as np
+    res = rng.choice([2.0, 4.0, 5.0, 10.0, 15.0])
+    glat = [float(x) for x in np.deg2rad(np.arange(-90.0, 90.0, res))]
+    glon = [float(x) for x in np.deg2rad(np.arange(-180.0, 180.0, res))]
+    top = 90.0 - res
+    n = rng.randint(3, 7)
+    lon = rng.uniform(-170.0, 60.0)
+    pts = []
+    if rng.random() < 0.6:
+        pts.append((top - rng.uniform(0.3, 2.5) * res, lon))              # enters the row from below
+    for _ in range(n):
+        r = rng.random()
+        la = rng.uniform(top + 0.05 * res, min(top + 0.95 * res, 89.6))
+        if pts and r < 0.3:
+            pts.append((la, pts[-1][1]))                                   # along a meridian
+        elif pts and r < 0.5 and pts[-1][0] > top:
+            lon += rng.uniform(3.0, 35.0)
+            pts.append((pts[-1][0], lon))                                  # along a parallel
+        else:
+            lon += rng.uniform(3.0, 35.0)
+            pts.append((la, lon))
+    if rng.random() < 0.6:
+        lon += rng.uniform(1.0, 20.0)
+        pts.append((top - rng.uniform(0.3, 2.5) * res, lon))              # leaves it
+    pts = [(la, lo) for la, lo in pts if all(abs(math.radians(lo) - g) > 1e-7 for g in glon)
+           and all(abs(math.radians(la) - g) > 1e-7 for g in glat)]
+    m = len(pts)
+    return {'glat': glat, 'glon': glon, 'galt': None, 'gtime': None,
+            'lats': [math.radians(a) for a, _ in pts], 'lons': [math.radians(b) for _, b in pts], 'alts': None,
+            'times': None, 'states': [[rng.uniform(-50, 900) for _ in range(m)]],
+            'ints': [[rng.uniform(1.0, 500.0) for _ in range(m - 1)], [1.0] * (m - 1)], 'kinds': ['top-row']}
+
+
 def case_features(case):
     """coverage tags derived from the case itself"""
     f = set(case.get('kinds', []))
@@ -951,7 +988,8 @@ def run(chk: Check):
     note_source(chk)
     chk.coq_props('props/C04_Props.v')
     translator_tie(chk, 'C04_Link.v')
-    cases = load_corpus('C04') + [gen_case(chk.rng) for _ in range(chk.n(1000, 8000))]
+    cases = (load_corpus('C04') + [gen_top_row_case(chk.rng) for _ in range(chk.n(25, 200))]
+             + [gen_case(chk.rng) for _ in range(chk.n(1000, 8000))])
     check_cases(chk, cases)
 
 
